@@ -46,6 +46,23 @@ func factsC17() {
 	addStrList("c17VerifyDue", []string{c17Src(sg, methodDecl(sg, "signer", "verify").Body.List[0])},
 		"signer.go verify: first statement (the due date)")
 	addStrList("c17MatchBody", c17Stmts(sg, funcDecl(sg, "match")), "signer.go match: statements")
+	// the signer is a long lived object: how a new configuration reaches the state verify decides with (Props/C17Cfg)
+	ac := methodDecl(sg, "signer", "AcmeConfig")
+	addStrList("c17AcmeConfigBody", c17Stmts(sg, ac), "signer.go AcmeConfig: statements (the window is assigned unconditionally: 0 and negative windows included)")
+	addStrList("c17AcmeConfigConds", c17IfConds(sg, ac), "signer.go AcmeConfig: if conditions (none)")
+	addStrList("c17AcmeAccountConds", c17IfConds(sg, methodDecl(sg, "signer", "AcmeAccount")),
+		"signer.go AcmeAccount: if conditions in source order (same account: nothing; all empty: forgotten; client creation failed: forgotten)")
+	var expWrites []string
+	for _, d := range load(sg).f.Decls {
+		if fd, ok := d.(*ast.FuncDecl); ok && fd.Body != nil {
+			for _, a := range c17AssignsAll(sg, fd) {
+				if strings.HasPrefix(a, "s.expiring ") || strings.HasPrefix(a, "s.expiring=") {
+					expWrites = append(expWrites, fd.Name.Name+": "+a)
+				}
+			}
+		}
+	}
+	addStrList("c17ExpiringWrites", expWrites, "signer.go: every assignment of s.expiring in the file, with its function (AcmeConfig only)")
 	gl := "pkg/haproxy/types/global.go"
 	addStrList("c17ShrinkConds", c17IfConds(gl, methodDecl(gl, "AcmeStorages", "shrink")), "global.go AcmeStorages.shrink: if conditions")
 	addStrList("c17AcquireConds", c17IfConds(gl, methodDecl(gl, "AcmeStorages", "Acquire")), "global.go AcmeStorages.Acquire: if conditions")
